@@ -55,6 +55,11 @@ def command(draw):
         a, b = draw(st.sampled_from([(0, 0), (5, 5), (12, 3)]))
         dx, dy = draw(st.sampled_from([(10, 0), (0, 10), (6, 8), (-8, 6)]))
         return "G90\nG1 X%d Y%d\n%s X%d Y%d R%s" % (a, b, draw(st.sampled_from(["G2", "G3"])), a + dx, b + dy, draw(st.sampled_from(NEAR_R)))
+    if k == 1 and draw(st.integers(0, 5)) == 0:
+        # finite words whose sum / unit conversion overflows the tracked position
+        big = "9" * 308
+        return draw(st.sampled_from(["G20\nG1 X%s Y5\nG1 X1 Y1" % big, "G91\nG1 X%s\nG1 X%s Y2\nG90\nG1 X5 Y5" % (big, big),
+                                     "G1 X-%s Y%s\nG20\nG21\nG1 Z2" % (big, big), "G20\nG92 E%s\nG1 E1" % big]))
     if k == 0:
         return draw(st.sampled_from(ARC_TEMPLATES))
     if k <= 2:
